@@ -354,6 +354,7 @@ def run(ctx):
     ctx.floor("R14.5d", "std::sort calls with a named comparator", n_sorts, 1)
     definite_initialisation(ctx)
     no_address_results(ctx)
+    outputs_are_truncated(ctx)
 
 def _enclosing_case(db, f, node):
     """Names of the case labels of the innermost switch arm containing node (a stable site context)."""
@@ -656,3 +657,30 @@ def no_address_results(ctx):
                        "Result(void *) is built from %s" % ("nullptr / another result's pointer" if ok else "`%s`: the address of an object" % show(a)[:50]))
     ctx.floor("R14.7", "Result(void *) constructions", n, 2)
 
+
+
+def outputs_are_truncated(ctx):
+    """R14.8: an output file is a function of this run's inputs only if it is opened TRUNCATING: written in place, a
+    shorter output keeps the tail of whatever an earlier run left in the file.  Every Filename::open_write() of the two
+    tools must pass truncate = true - explicitly or through the declaration's default.  (Seed S7-C14: the default in
+    filename.h flipped to false.)"""
+    db = ctx.db
+    ctx.rule("R14.8", "every Filename::open_write(stream[, truncate]) call in interrogate and interrogate_module has truncate == true (explicit argument or the default argument of the declaration)")
+    n = 0
+    for f in db.functions:
+        if "/interrogate/" not in f.file:
+            continue
+        for c in f.walk():
+            if c.get("k") != "call" or c.get("f") != "Filename::open_write":
+                continue
+            n += 1
+            args = c.get("a", [])
+            t = args[1] if len(args) > 1 else None
+            how = "explicit"
+            if t is not None and t.get("k") == "defarg":
+                t = t.get("e")
+                how = "default argument"
+            v = const_int(t) if t is not None else None
+            ctx.ob("R14.8", "%s|open_write(%s)|truncates" % (f.name, show(args[0])[:30] if args else "?"), v == 1, f.loc(c),
+                   "truncate = %s (%s)" % (show(t) if t is not None else "?", how))
+    ctx.floor("R14.8", "open_write calls of the tools", n, 5)
